@@ -493,6 +493,46 @@ theorem rejected_call_keeps_state (K : Kernels ℂ) (o : Obj ℂ) (op : Op ℂ) 
     (h : (step K o op).2 = .err e) : (step K o op).1 = o :=
   Pf.step_err_state K o op e h
 
+/-! ## every way of handing the channel to a scheme -/
+
+/-- **Constructor path = setter path.**  `cls(channel)` is `cls()` followed by the class's
+    own `set_channel_matrix(channel)`: the same object when the channel is accepted, the same
+    exception (and a still channel-less object) when it is rejected. -/
+theorem constructor_is_setter (K : Kernels ℂ) (s : Scheme) (c : ChanArg ℂ) :
+    (∀ o, construct s c = .ok o ↔ step K (constructEmpty s) (.setChannel c) = (o, .done)) ∧
+    (∀ e, construct s c = .error e ↔
+      step K (constructEmpty s) (.setChannel c) = (constructEmpty s, .err e)) :=
+  Pf.construct_eq_setter K s c
+
+/-- **Later replacement = constructor.**  Re-pointing any object of the class (whatever
+    channel it had, in whatever layout) with `set_channel_matrix(channel)` gives the object
+    `cls(channel)` builds (noise variance at its default), hence the same `encode` /
+    `decode` / stored channel / SINRs afterwards. -/
+theorem replacement_is_constructor (K : Kernels ℂ) (s : Scheme) (c : ChanArg ℂ) (o o' : Obj ℂ)
+    (h : construct s c = .ok o) (hs : o'.scheme = s) (hn : o'.nv = 0) (obs : Op ℂ) :
+    step K o' (.setChannel c) = (o, .done) ∧
+    (step K (step K o' (.setChannel c)).1 obs).2 = (step K o obs).2 := by
+  have e := Pf.replace_eq_construct K s c o o' h hs hn
+  exact ⟨e, by rw [e]⟩
+
+/-- **The documented channel layouts are the same channel.**  A vector of `Nr` gains and
+    the `Nr × 1` column are stored identically by MRC (as `Nr × 1`), a vector of `Nt` gains
+    and the `1 × Nt` row identically by MRT (as `1 × Nt`), a 2-vector and the `1 × 2` row
+    identically by Alamouti — so by the two theorems above every observation agrees,
+    whichever layout and whichever entry point was used; reading `_channel` returns that
+    2-D matrix. -/
+theorem channel_layouts_agree (K : Kernels ℂ) (n : Nat) (v : Vec ℂ n) (w : Vec ℂ 2) :
+    storeChan .mrc (.vec n v) = storeChan .mrc (.mat n 1 (fun i _ => v i)) ∧
+    storeChan .mrt (.vec n v) = storeChan .mrt (.mat 1 n (fun _ j => v j)) ∧
+    storeChan .alamouti (.vec 2 w) = storeChan .alamouti (.mat 1 2 (fun _ j => w j)) ∧
+    storeChan .mrc (.vec n v) = .ok ⟨n, 1, fun i _ => v i⟩ ∧
+    (∀ o, construct .mrc (.vec n v) = .ok o →
+      (step K o .channel).2 = .mat n 1 (fun i _ => v i)) := by
+  refine ⟨rfl, rfl, rfl, rfl, ?_⟩
+  intro o ho
+  cases ho
+  rfl
+
 /-! ## non-vacuity: concrete values satisfying the hypotheses -/
 
 /-- the `pinv` contract and full column rank hold for the 2×1 channel `[1, j]ᵀ` with
